@@ -28,6 +28,8 @@ OPS = [
     ("set", "x", {"n": {"m": 2}}), ("listset", "x", 0, 9), ("set", "x", None), ("nested2", "x", "n", "m", 3),
 ]
 OPS.insert(13, ("remove",))  # job targets only; part of the quick alphabet
+OPS.insert(14, ("job_clear",))
+OPS.insert(15, ("job_reset",))
 DOC_OF = {"J1a": "J1", "J1b": "J1", "J2": "J2", "P1": "P", "P2": "P"}
 
 
@@ -50,7 +52,7 @@ def apply_plain(d, op):
         elif k == "reset":
             d.clear()
             d.update(json.loads(json.dumps(op[1])))
-        elif k == "remove":
+        elif k in ("remove", "job_clear", "job_reset"):
             d.clear()
         elif k == "nested":
             d[op[1]][op[2]] = op[3]
@@ -86,6 +88,12 @@ def apply_real(owner, op):
             return None, None
         if k == "remove":
             owner.remove()
+            return None, None
+        if k == "job_clear":
+            owner.clear()
+            return None, None
+        if k == "job_reset":
+            owner.reset()
             return None, None
         doc = owner.doc
         if k == "set":
@@ -333,7 +341,7 @@ def execute(hist):
             except Exception as e:  # noqa
                 bad("read-raises", f"fresh session: {type(e).__name__}: {e}")
         enabled = [[t, list(o)] for t in _CFG["targets"] if t not in w.stale for o in _CFG["ops"]
-                   if not (o[0] == "remove" and DOC_OF[t] == "P")]
+                   if not (o[0] in ("remove", "job_clear", "job_reset") and DOC_OF[t] == "P")]
     return {"key": key, "enabled": enabled, "viol": viol, "n": n, "cls": hist[-1][1][0] if hist else "init",
             "expected_failure": bool(hist) and apply_plain({}, hist[-1][1])[1] is not None}
 
@@ -403,7 +411,7 @@ def run(ctx):
     quick = ctx.quick
     _CFG["salt"] = ctx.seed
     _CFG["targets"] = ["J1a", "J1b", "P1"] if quick else ["J1a", "J1b", "J2", "P1", "P2"]
-    _CFG["ops"] = OPS[:15] if quick else OPS
+    _CFG["ops"] = OPS[:17] if quick else OPS
     _CFG["caps"] = [None, 30] if quick else [None, 0, 30, 200]
     depth = 3 if quick else 4 if len(_CFG["targets"]) <= 3 else 3
     # thorough: depth 4 on the small target set, depth 3 on the large one
@@ -415,7 +423,7 @@ def run(ctx):
     reps += [(h, list(_CFG["targets"]), "full-block") for h in st.nonreps]
     if not quick:
         _CFG["targets"] = ["J1a", "J1b", "P1"]
-        _CFG["ops"] = OPS[:15]
+        _CFG["ops"] = OPS[:17]
         st2 = engine_h.explore(ctx, _exec, max_depth=4, chunk=16, collect_all=True)
         engine_h.fill_report(report, st2)
         reps += [(h, list(_CFG["targets"]), "all" if len(h) <= 3 else "two-blocks") for h in st2.reps]
